@@ -20,6 +20,7 @@ import concurrent.futures as cf
 import json
 import os
 import threading
+import time
 
 from lib import build, hrun, tlc
 from lib.common import Broken, log
@@ -94,10 +95,11 @@ class Ownership(Machine):
                "AssignMoveSelf", "AssignNull", "Reset", "ResetNew", "ResetAdopt", "Release", "RawDelete", "Swap",
                "ScopeExit"]
     witnesses = {
-        "shared": ["WitSelfCopySole", "WitSelfCopyShared", "WitSelfMove", "WitSelfSwap", "WitLastOwnerExit",
-                   "WitNotLastExit", "WitAssignKills", "WitConvDB"],
-        "unique": ["WitAdopt", "WitRawDelete", "WitSelfMove", "WitConvDB"],
-        "mixed": ["WitConvUS", "WitSelfCopySole"],
+        "shared": ["SelfCopySole", "SelfCopyNullCB", "SelfCopyShared", "SelfMove", "SelfSwap", "LastOwnerExit",
+                   "NotLastExit", "AssignKills", "ConvDerivedBase"],
+        "unique": ["Adopt", "RawDelete", "SelfMove", "ConvDerivedBase", "LastOwnerExit"],
+        "mixed": ["ConvUniqueShared", "SelfCopySole", "SelfCopyNullCB", "Adopt"],
+        "mixed2": ["ConvUniqueShared", "ConvDerivedBase", "SelfCopyNullCB"],
     }
 
     def mc(self, ctx):
@@ -121,8 +123,7 @@ class Ownership(Machine):
                             sim=dict(num=1500 if thorough else 250, depth=9,
                                      consts=_own_consts(u, b, True, 9, ALL_DEVS, nobj=3),
                                      cfgrec=dict(cfgrec, nobj=3)),
-                            wit=self.witnesses.get(name, []),
-                            witconsts=_own_consts(u, b, True, 8, ALL_DEVS)))
+                            wit=self.witnesses.get(name, [])))
         return out
 
     def beh(self, b, cfgrec):
@@ -154,8 +155,7 @@ class StringView(Machine):
             # every substr(pos, n) of every string (the result is a view into the middle of a buffer)
             dict(name="substr1", consts=self._c(3, True, 1, False, 1), cfgrec=rec, depth=1,
                  sim=dict(num=3000 if thorough else 400, depth=5, consts=self._c(3, True, 4, False, 3), cfgrec=rec),
-                 wit=["WitThrowAtEndPlus1", "WitSubstrAtEnd", "WitNulInside", "WitEmptyOfEmpty"],
-                 witconsts=self._c(3, True, 2, False, 0)),
+                 wit=["ThrowAtEndPlus1", "SubstrAtEnd", "NulFirstInWindow", "WholeOfEmpty", "BigPosThrows"]),
         ]
         if thorough:
             out.append(dict(name="substr2", consts=self._c(3, True, 2, False, 0), cfgrec=rec, depth=2, sim=None, wit=[]))
@@ -184,8 +184,7 @@ class Span(Machine):
         rec = {"maxlen": 3}
         out = [dict(name="all2", consts=self._c(3, True, 2), cfgrec=rec, depth=2,
                     sim=dict(num=4000 if thorough else 600, depth=9, consts=self._c(3, True, 8), cfgrec=rec),
-                    wit=["WitWriteSeenByOther", "WitEmptyAtEnd", "WitStaticTail", "WitConstStatic", "WitSelfAssign"],
-                    witconsts=self._c(3, True, 6))]
+                    wit=["WriteSeenByOther", "EmptyAtEnd", "StaticTail", "ConstStatic", "SelfAssign"])]
         if thorough:
             out.append(dict(name="all3-len2", consts=self._c(2, True, 3), cfgrec={"maxlen": 2}, depth=3, sim=None, wit=[]))
         return out
@@ -209,8 +208,7 @@ class Variant(Machine):
         thorough = ctx.tier == "thorough"
         return [dict(name="all3", consts=self._c(True, 3, True), cfgrec={}, depth=3,
                      sim=dict(num=5000 if thorough else 500, depth=9, consts=self._c(True, 8, False), cfgrec={}),
-                     wit=["WitMoveTracked", "WitMoveString", "WitReplaceTracked", "WitSwapDifferent", "WitCopyAny"],
-                     witconsts=self._c(True, 6, False))]
+                     wit=["MoveTracked", "MoveString", "ReplaceTracked", "SwapDifferent", "CopyAny", "SameIndexAssign"])]
 
     def beh(self, b, cfgrec):
         return {"m": "var", "cfg": cfgrec, "steps": b["steps"]}
@@ -232,8 +230,7 @@ class FunctionRef(Machine):
         return [dict(name="all%d" % (5 if thorough else 4), consts=self._c(True, 5 if thorough else 4), cfgrec={"m": 4},
                      depth=5 if thorough else 4,
                      sim=dict(num=3000 if thorough else 400, depth=13, consts=self._c(True, 12), cfgrec={"m": 4}),
-                     wit=["WitSharedState", "WitCopyThenCall", "WitRebind", "WitNullAfterBound"],
-                     witconsts=self._c(True, 8))]
+                     wit=["SharedState", "CopyThenCall", "Rebind", "NullAfterBound"])]
 
     def beh(self, b, cfgrec):
         return {"m": "fref", "cfg": cfgrec, "steps": b["steps"]}
@@ -243,79 +240,90 @@ MACHINES = [Ownership(), StringView(), Span(), Variant(), FunctionRef()]
 
 
 # ------------------------------------------------------------------------------------------------
-# TLC side
+# TLC side (every run is a job for a small pool: the machine is shared, JVM start-up dominates)
 # ------------------------------------------------------------------------------------------------
-def model_check(ctx, m):
-    for (name, consts, invs, cover) in m.mc(ctx):
-        tag = "mc-%s-%s" % (m.key, "".join(ch for ch in name if ch.isalnum()))
-        c = _cfg(ctx, tag, consts, invs)
-        r = tlc.tlc(m.module, c, rundir=ctx.rundir.path, workers=4, timeout_s=900, coverage=cover, tag=tag)
-        _add_tlc(ctx, "%s: %s" % (m.module, name), r)
-        if r.status == "invariant":
-            # the SPEC contradicts the property it is supposed to state: the check is broken
-            raise Broken("%s (%s): invariant %s violated by the specification itself\n%s" % (
-                m.module, name, r.violated, r.trace_text[:3000]))
-        tlc.must_ok(r, "%s model checking (%s)" % (m.module, name))
-        if cover:
+def mc_job(ctx, m, name, consts, invs, cover):
+    tag = "mc-%s-%s" % (m.key, "".join(ch for ch in name if ch.isalnum()))
+    c = _cfg(ctx, tag, consts, invs)
+    r = tlc.tlc(m.module, c, rundir=ctx.rundir.path, workers=4 if m.key == "span" else 2, timeout_s=1100,
+                coverage=cover, tag=tag)
+    _add_tlc(ctx, "%s: %s" % (m.module, name), r)
+    if r.status == "invariant":
+        # the SPEC contradicts the property it is supposed to state: the check is broken
+        raise Broken("%s (%s): invariant %s violated by the specification itself\n%s" % (
+            m.module, name, r.violated, r.trace_text[:3000]))
+    tlc.must_ok(r, "%s model checking (%s)" % (m.module, name))
+    if cover:
+        with _LOCK:
             seen = ctx.extra.setdefault("actions_generated", {}).setdefault(m.key, {})
             for a in m.actions:
                 seen[a] = seen.get(a, 0) + r.coverage.get(a, (0, 0))[1]
-    if isinstance(m, Ownership):
-        # the deviating disjunct must be reachable in the as-implemented model, else it models nothing
+    if "as-implemented" in name and r.coverage is not None:
         pass
-    for a in m.actions:
-        if ctx.extra["actions_generated"][m.key].get(a, 0) == 0:
-            raise Broken("vacuity: action %s of %s was never generated in model checking" % (a, m.module))
+    return []
 
 
-def generate(ctx, m):
-    """All behaviours to the configured depth + random walks + witnesses.  Returns behaviour dicts."""
-    behs = {}
-    counts = {}
+def gen_job(ctx, m, g):
+    """All behaviours to the configured depth; the same run reports the rare conditions (WIT lines)."""
+    tag = "gen-%s-%s" % (m.key, g["name"])
+    c = _cfg(ctx, tag, g["consts"], ["EmitAll", "WitAll"])
+    r = tlc.tlc(m.module, c, rundir=ctx.rundir.path, workers=4, timeout_s=1100, tag=tag, xmx="6g")
+    _add_tlc(ctx, "%s: all behaviours of depth %d (%s)" % (m.module, g["depth"], g["name"]), r)
+    tlc.must_ok(r, "%s generation %s" % (m.module, g["name"]))
+    out = r.printed("BEH")
+    if not out:
+        raise Broken("generation %s/%s printed no behaviour" % (m.module, g["name"]))
+    found = set(x.strip('"') for x in r.printed_raw("WIT"))
+    for w in g.get("wit", []):
+        if w not in found:
+            raise Broken("vacuity: rare condition %s of %s (%s) is not in the enumerated behaviours" % (w, m.module, g["name"]))
+    with _LOCK:
+        ctx.extra.setdefault("rare_conditions_in_replay_set", {})["%s.%s" % (m.key, g["name"])] = sorted(found)
+    return [(m.beh(b, g["cfgrec"]), "%s:all-depth-%d" % (g["name"], g["depth"])) for b in out]
 
-    def add(b, cfgrec, src):
-        rec = m.beh(b, cfgrec)
-        k = json.dumps(rec, sort_keys=True)
-        if k not in behs:
-            rec["src"] = src
-            behs[k] = rec
-            counts[src] = counts.get(src, 0) + 1
 
-    for g in m.gens(ctx):
-        tag = "gen-%s-%s" % (m.key, g["name"])
-        c = _cfg(ctx, tag, g["consts"], ["EmitAll"])
-        r = tlc.tlc(m.module, c, rundir=ctx.rundir.path, workers=4, timeout_s=900, tag=tag, xmx="6g")
-        _add_tlc(ctx, "%s: all behaviours of depth %d (%s)" % (m.module, g["depth"], g["name"]), r)
-        tlc.must_ok(r, "%s generation %s" % (m.module, g["name"]))
-        out = r.printed("BEH")
-        if not out:
-            raise Broken("generation %s/%s printed no behaviour" % (m.module, g["name"]))
-        for b in out:
-            add(b, g["cfgrec"], "%s:all-depth-%d" % (g["name"], g["depth"]))
-        for w in g.get("wit", []):
-            c = _cfg(ctx, tag + "-" + w, g["witconsts"], [w])
-            r = tlc.tlc(m.module, c, rundir=ctx.rundir.path, workers=2, timeout_s=300, tag=tag + "-" + w)
-            _add_tlc(ctx, "%s: witness %s (%s)" % (m.module, w, g["name"]), r)
-            out = r.printed("BEH")
-            if r.status != "invariant" or not out:
-                raise Broken("vacuity: witness %s of %s (%s) not reachable: %s" % (w, m.module, g["name"], r.status))
-            ctx.extra.setdefault("witness_lengths", {})["%s.%s.%s" % (m.key, g["name"], w)] = len(out[0]["steps"])
-            add(sorted(out, key=lambda x: json.dumps(x, sort_keys=True))[0], g["cfgrec"], "%s:witness:%s" % (g["name"], w))
-        s = g.get("sim")
-        if s:
-            c = _cfg(ctx, tag + "-sim", s["consts"], ["EmitAll"])
-            r = tlc.tlc(m.module, c, rundir=ctx.rundir.path, workers=1, timeout_s=600, tag=tag + "-sim",
-                        simulate={"num": s["num"], "depth": s["depth"] + 3}, seed=ctx.seed * 7919 + 13)
-            if r.status != "ok":
-                raise Broken("simulate %s/%s failed: %s\n%s" % (m.module, g["name"], r.status, r.out[-2000:]))
-            out = r.printed("BEH")
-            if not out:
-                raise Broken("simulate %s/%s printed no behaviour" % (m.module, g["name"]))
-            for b in out:
-                add(b, s["cfgrec"], "%s:random-walk" % g["name"])
-    lst = [behs[k] for k in sorted(behs)]
-    ctx.extra.setdefault("behaviours_by_source", {})[m.key] = counts
-    return lst
+def sim_job(ctx, m, g):
+    s = g["sim"]
+    tag = "sim-%s-%s" % (m.key, g["name"])
+    c = _cfg(ctx, tag, s["consts"], ["EmitAll"])
+    r = tlc.tlc(m.module, c, rundir=ctx.rundir.path, workers=1, timeout_s=600, tag=tag,
+                simulate={"num": s["num"], "depth": s["depth"] + 3}, seed=ctx.seed * 7919 + 13)
+    if r.status != "ok":
+        raise Broken("simulate %s/%s failed: %s\n%s" % (m.module, g["name"], r.status, r.out[-2000:]))
+    out = r.printed("BEH")
+    if not out:
+        raise Broken("simulate %s/%s printed no behaviour" % (m.module, g["name"]))
+    log("tlc %-70s %-9s %8d walks    %6.1fs" % ("%s: random walks (%s)" % (m.module, g["name"]), r.status, len(out), r.wall))
+    return [(m.beh(b, s["cfgrec"]), "%s:random-walk" % g["name"]) for b in out]
+
+
+def tlc_phase(ctx):
+    """Runs every TLC job; returns {machine key: [behaviour dicts]} (deduplicated, sorted: deterministic ids)."""
+    jobs = []
+    for m in MACHINES:
+        for (name, consts, invs, cover) in m.mc(ctx):
+            jobs.append((m, mc_job, (ctx, m, name, consts, invs, cover)))
+        for g in m.gens(ctx):
+            jobs.append((m, gen_job, (ctx, m, g)))
+            if g.get("sim"):
+                jobs.append((m, sim_job, (ctx, m, g)))
+    behs = {m.key: {} for m in MACHINES}
+    counts = {m.key: {} for m in MACHINES}
+    with cf.ThreadPoolExecutor(max_workers=4) as ex:
+        futs = [(m, ex.submit(fn, *args)) for (m, fn, args) in jobs]
+        for m, f in futs:
+            for rec, src in f.result():
+                k = json.dumps(rec, sort_keys=True)
+                if k not in behs[m.key]:
+                    rec["src"] = src
+                    behs[m.key][k] = rec
+                    counts[m.key][src] = counts[m.key].get(src, 0) + 1
+    for m in MACHINES:
+        for a in m.actions:
+            if ctx.extra["actions_generated"][m.key].get(a, 0) == 0:
+                raise Broken("vacuity: action %s of %s was never generated in model checking" % (a, m.module))
+    ctx.extra["behaviours_by_source"] = counts
+    return {k: [v[x] for x in sorted(v)] for k, v in behs.items()}
 
 
 # ------------------------------------------------------------------------------------------------
@@ -337,6 +345,7 @@ def run_harness(ctx, exe, behs, ninst, tag, shards=4):
     if not behs:
         return [], {}
     path = ctx.rundir.file("beh-%s.ndjson" % tag)
+    t0 = time.time()
     with open(path, "w") as f:
         for b in behs:
             f.write(json.dumps(b) + "\n")
@@ -360,7 +369,10 @@ def run_harness(ctx, exe, behs, ninst, tag, shards=4):
                 if isinstance(v, int):
                     summ[k] = summ.get(k, 0) + v
             recs += [x for x in got if x.get("r") != "summary"]
-    os.unlink(path)
+    if not os.environ.get("VERIF_KEEP"):
+        os.unlink(path)
+    log("replayed %-8s %6d behaviours x %d concretisations, %8d steps compared, %5d forks, %.1fs" % (
+        tag, len(behs), ninst, summ.get("steps", 0), summ.get("forks", 0), time.time() - t0))
     if summ.get("behaviours") != len(behs):
         raise Broken("replay harness replayed %s of %d behaviours (%s)" % (summ.get("behaviours"), len(behs), tag))
     return recs, summ
@@ -448,15 +460,7 @@ def run(ctx):
                          "several seeded concretisations); distinct_nontrivial: distinct behaviours (operation sequences with their "
                          "expected projections) with at least one operation, duplicates removed")
     exes = build_all()
-    all_behs = {}
-    with cf.ThreadPoolExecutor(max_workers=3) as ex:
-        futs = {}
-        for m in MACHINES:
-            model_check(ctx, m)
-        for m in MACHINES:
-            futs[m.key] = ex.submit(generate, ctx, m)
-        for m in MACHINES:
-            all_behs[m.key] = futs[m.key].result()
+    all_behs = tlc_phase(ctx)
     nid = 0
     by_id = {}
     for m in MACHINES:
@@ -525,7 +529,8 @@ def replay(ctx, path):
     exes = build_all()
     m = [x for x in MACHINES if x.key == b["m"]][0]
     ctx.seed = int(json.load(open(path)).get("seed", ctx.seed))     # same concretisations as the failing run
-    model_check(ctx, m)                                            # the machine still states the property
+    for (name, consts, invs, cover) in m.mc(ctx):                  # the machine still states the property
+        mc_job(ctx, m, name, consts, invs, False)
     recs, summ = run_harness(ctx, exes[m.binary], [b], rep.get("instances", 3), "replay", shards=1)
     broken = classify(ctx, recs, {(b["m"], b["id"]): b}, rep.get("instances", 3))
     if broken:
